@@ -26,7 +26,7 @@ def gen(rng, tier):
     for d in small:
         cases.append({'kind': 'dfa', 'D': d, 'ws': G.words_str(d['Sigma'], 4)})
     for _ in range(200 if quick else 3000):
-        sigma = rng.choice(['a', 'ab', 'abc', ''])
+        sigma = rng.choice(['a', 'ab', 'abc', '', '_a', 'ε', '01', '_'])
         d = G.random_dfa(rng, rng.randint(1, 7), sigma)
         cases.append({'kind': 'dfa', 'D': d, 'ws': G.random_words(rng, sigma, 30, 8)})
     nf = G.all_nfas(2, 'a')
@@ -35,8 +35,8 @@ def gen(rng, tier):
     for n in nf:
         cases.append({'kind': 'nfa', 'N': n, 'ws': G.words_str(n['Sigma'], 4), 'sets': [[], ['q0', 'q1']]})
     for _ in range(300 if quick else 4000):
-        sigma = rng.choice(['a', 'ab', 'abc', 'ab', ''])
-        eps = rng.choice(['_', '', 'e', 'ε'])
+        sigma = rng.choice(['a', 'ab', 'abc', 'ab', '', '01', '_x'])
+        eps = rng.choice([e for e in ['_', '', 'e', 'ε'] if e not in sigma])
         k = rng.randint(1, 7)
         n = G.random_nfa(rng, k, sigma, eps, peps=rng.choice([0.0, 0.2, 0.5]))
         sets = [rng.sample(n['Q'], rng.randint(0, k)) for _ in range(3)]
